@@ -10,7 +10,12 @@ FRAGMENTS = {
                         'define m 5 define f begin assign m 1 end', 'define m 5 assign m {m + 1}', 'define m 12:30 assign m 1',
                         'define m 5 define f with m begin hue 1 end assign m 6', 'define m 5 define f with a m begin hue a end f 1 2 assign m 7'],
     'redefine-macro': ['define m 5 define m 6', 'define m 5 define m begin hue 1 end', 'define m 5 hue m define m "x"',
-                       'define m 5 define k m define m 7'],
+                       'define m 5 define k m define m 7',
+                       # the name is also a local symbol where the redefinition stands: parameter, light variable, loop index, the routine itself
+                       'define m 5 define f with m begin define m 6 end f 1 print m',
+                       'define lamp "a" define g begin repeat all as lamp begin define lamp "b" end end g on lamp',
+                       'define level 100 define h begin repeat with level from 1 to 2 begin define level 7 end end brightness level',
+                       'define f with f begin define f 5 end', 'define m 5 define f with a m begin define m a end'],
     'undefined-name': ['hue x', 'print y', 'assign a b', 'hue {x + 1}', 'f 1', 'hue [g 2]', 'repeat n begin hue 1 end',
                        'define f with a begin hue b end', 'if {q} hue 1', 'set "a" zone z', 'repeat with i from 1 to k begin hue i end',
                        'define f begin assign loc 1 end hue loc', 'assign v 1 hue {v + w}', 'define f with a begin hue a end f u',
